@@ -20,7 +20,7 @@ ASSUMPTIONS = [
     '(1-based POS; START/DONOR_START/ACCEPTER_START/ACCEPTER_POSITION written 1-based)',
     'record attribute sets are those the bundled parsers emit',
 ]
-BUDGET = {'quick': 150, 'thorough': 4000}
+BUDGET = {'quick': 1000, 'thorough': 20000}
 POSITION_ATTRS = {'START', 'DONOR_START', 'ACCEPTER_START', 'ACCEPTER_POSITION'}
 SYMBOLIC = {'Fusion': '<FUSION>', 'Insertion': '<INS>', 'Deletion': '<DEL>',
     'Substitution': '<SUB>'}
@@ -116,7 +116,11 @@ def strategy_(draw, tier):
                 if r['tx'] not in order:
                     order.append(r['tx'])
             recs = [r for t in order for r in recs if r['tx'] == t]
-        files.append(dict(circ=is_circ, records=recs, idx=d.chance(0.5),
+        # metadata paths as the parsers record them; real paths may hold non-ASCII characters
+        # (byte offsets and character offsets then differ)
+        mpath = d.choice([None, None, '/data/ref/index', '/home/ren\u00e9e/r\u00e9f\u00e9rence',
+            '/srv/\u57fa\u56e0\u7ec4/GRCh38', '/mnt/Z\u00fcrich/\u03b2-test'])
+        files.append(dict(circ=is_circ, records=recs, idx=d.chance(0.5), meta_path=mpath,
             tamper=d.choice([None, None, None, 'append', 'flip', 'nochecksum'])))
     return dict(files=files)
 
@@ -168,12 +172,15 @@ def write_file(f, path):
     from moPepGen import seqvar, circ
     from moPepGen.seqvar.GVFMetadata import GVFMetadata
     recs = [to_record(r) for r in f['records']]
+    mp = f.get('meta_path')
+    kw = dict(reference_index=mp) if mp and len(mp) % 2 else \
+        dict(genome_fasta=mp + '/genome.fa', annotation_gtf=mp + '/anno.gtf') if mp else {}
     if f['circ']:
-        md = GVFMetadata(parser='parseCIRCexplorer', source='circRNA', chrom='Gene ID')
+        md = GVFMetadata(parser='parseCIRCexplorer', source='circRNA', chrom='Gene ID', **kw)
         with open(path, 'w') as h:
             circ.io.write(recs, md, h)
     else:
-        md = GVFMetadata(parser='parseVEP', source='gSNP', chrom='Gene ID')
+        md = GVFMetadata(parser='parseVEP', source='gSNP', chrom='Gene ID', **kw)
         seqvar.io.write(recs, str(path), md)
 
 
@@ -342,6 +349,8 @@ def prop(case, ctx):
         out.label('tx_in_multiple_runs_or_files')
     if any_idx:
         out.label('idx')
+    if any(f.get('meta_path') and not f['meta_path'].isascii() for f in case['files']):
+        out.label('non_ascii_metadata')
     if tampered:
         out.label('stale_idx_rejected')
     out.label(f'files:{len(paths)}')
